@@ -205,6 +205,12 @@ func (ex *Exec) checkAsserts(fr *Frame, st *State, key string, names []string, p
 					env.vars["callee_"+n] = TV{args[i], ptypes[i]}
 				}
 			}
+			// a renamed parameter of the callee is still reachable under the name its contract was written with
+			for old, i := range ex.lib.Contracts[key].paramAliases(names) {
+				if i < len(args) {
+					env.vars["callee_"+old] = TV{args[i], ptypes[i]}
+				}
+			}
 		}
 		label := cl.Label
 		if label == "" {
@@ -629,6 +635,11 @@ func (ex *Exec) applyContractNamed(fr *Frame, st *State, c *Contract, names []st
 		if i < len(args) {
 			env.vars[n] = TV{args[i], ptypes[i]}
 			env.vars[fmt.Sprintf("arg%d", i)] = TV{args[i], ptypes[i]}
+		}
+	}
+	for old, i := range c.paramAliases(names) {
+		if i < len(args) {
+			env.vars[old] = TV{args[i], ptypes[i]}
 		}
 	}
 	if len(names) > 0 && fn != nil && fn.Signature.Recv() != nil {
@@ -1099,7 +1110,7 @@ func (ex *Exec) emptyContractOfSmallHelper(c *Contract, fn *ssa.Function) bool {
 		return false
 	}
 	for _, cl := range c.Clauses {
-		if tagActive(cl.Tags, ex.prop) && cl.Kind != "exempt" {
+		if tagActive(cl.Tags, ex.prop) && cl.Kind != "exempt" && cl.Kind != "params" && cl.Kind != "local" {
 			return false
 		}
 	}
